@@ -635,6 +635,37 @@ impl Node {
             span.hash(hasher);
         }
     }
+    /// Hash everything that something derived from this node may refer to
+    ///
+    /// In addition to what [`Hash`] covers, this includes every span index in the node
+    /// and the index of every function it calls. If an assembly is passed, the same data
+    /// of the called functions' bodies is included as well.
+    pub(crate) fn hash_deep(&self, asm: Option<&Assembly>, hasher: &mut impl Hasher) {
+        fn recurse(
+            node: &Node,
+            asm: Option<&Assembly>,
+            visited: &mut Vec<usize>,
+            hasher: &mut impl Hasher,
+        ) {
+            if !matches!(node, Node::Run(_)) {
+                node.span().hash(hasher);
+            }
+            if let Node::Call(f, _) = node {
+                f.index.hash(hasher);
+                if let Some(body) = asm.and_then(|asm| asm.functions.get(f.index))
+                    && !visited.contains(&f.index)
+                {
+                    visited.push(f.index);
+                    recurse(body, asm, visited, hasher);
+                }
+            }
+            for node in node.sub_nodes() {
+                recurse(node, asm, visited, hasher);
+            }
+        }
+        self.hash_with_span(hasher);
+        recurse(self, asm, &mut Vec::new(), hasher);
+    }
     /// `⊓ bracket` several nodes
     pub fn bracket<I>(nodes: I, span: usize) -> Node
     where
